@@ -31,6 +31,7 @@ fn cap_sets() -> Vec<CapSet> {
             names: vec![],
         },
         CapSet { name: "unmatched", pattern: "(?<x>a)|(?<g>b)(?<_9>z)?", text: "b", groups: vec![Some("b"), None, Some("b"), None], names: vec![("x", 1), ("g", 2), ("_9", 3)] },
+        CapSet { name: "digit-led names", pattern: "(?<1x>a)(?<9_>b)(?<x1>c)?", text: "ab", groups: vec![Some("ab"), Some("a"), Some("b"), None], names: vec![("1x", 1), ("9_", 2), ("x1", 3)] },
         CapSet { name: "multibyte", pattern: "(?<é>é+)( )?(?=(x))", text: "ééx", groups: vec![Some("éé"), Some("éé"), None, Some("x")], names: vec![("é", 1)] },
     ]
 }
@@ -181,7 +182,7 @@ pub fn run_c12(cx: &Ctx) -> i32 {
         t,
         Finish {
             rule: format!(
-                "all {} templates of length <= {} over {:?} x 4 capture sets (named, numbered with 11 groups, unmatched groups, multi-byte) x both expanders (default and Python-style) x 5 entry points (expansion, append_expansion, write_expansion, write_expansion_vec, Captures::expand) which must all agree; oracle: reference expander written from the documentation (frmc-core/src/expandref.rs); expansion(escape(s)) == s for every string of the same space; check accepts only templates all of whose references name an existing group; non-trivial = expansions that differ from the template",
+                "all {} templates of length <= {} over {:?} x 5 capture sets (named, numbered with 11 groups, unmatched groups, digit-led names, multi-byte) x both expanders (default and Python-style) x 5 entry points (expansion, append_expansion, write_expansion, write_expansion_vec, Captures::expand) which must all agree; oracle: reference expander written from the documentation (frmc-core/src/expandref.rs); expansion(escape(s)) == s for every string of the same space; check accepts only templates all of whose references name an existing group; non-trivial = expansions that differ from the template",
                 total, max_len, ALPHA
             ),
             exhaustive: true,
